@@ -690,9 +690,9 @@ def compare_cases(ctx, tag, world, defects, cases, tab, obs, findings):
                 raise tlc.MachineryError('python and TLC disagree on Close for %s: %s' % (describe(names, o), text))
             failing.append((names, o, exp, text))
         elif not prop_ok:
-            shortcut = '+'.join(sorted(set(exp['path']) & {'prune', 'combine', 'fast', 'sub', 'blank', 'skip'})) or 'none'
-            findings.add('answer differs from the full composition and from the model of the code (model path: %s)' % shortcut,
-                         names, o, text)
+            shortcut = ([k for k in ('prune', 'combine', 'fast', 'sub', 'blank', 'skip') if k in exp['path']] + ['plain merge'])[0]
+            findings.add('answer differs from the full composition and from the model of the code (first shortcut on the '
+                         'model path: %s)' % shortcut, names, o, text)
         else:
             what = 'upstream-log' if ob['ups'] != exp['ups'] else 'picture'
             findings.add('answer is the full composition but not what the model of the code says (%s)' % what, names, o, text,
